@@ -58,7 +58,7 @@ def workdir(pid, name):
     return d
 
 
-def run_recorder(variant, driver, args, timeout=1800):
+def run_recorder(variant, driver, args, timeout=3600):
     exe = build_harness(variant)
     cmd = [exe, driver] + [str(a) for a in args]
     env = dict(os.environ)
